@@ -60,7 +60,7 @@ var modelText = map[string]string{
 	"strings.ToLower":   "strings.ToLower on a text of ASCII bytes only keeps the length and maps A-Z to a-z; nothing is assumed for other texts",
 	"strings.IndexByte": "strings.IndexByte returns the first position holding the byte, or -1 when no position does",
 	"strings.HasPrefix": "strings.HasPrefix with a constant prefix: length and bytes; with a variable prefix an uninterpreted function of the two strings",
-	"numerals":          "numeral vocabulary (a numeral - uf_isnum - is not empty and consists of ASCII digits after an optional sign, nothing else; conversely): a text that is z zeros followed by the decimal text of n (uf_utext), or a sign and the decimal text of n (uf_stext), is a numeral of that value - strconv.ParseInt and (big.Int).SetString read what strconv.AppendInt/AppendUint and (big.Int).Append write; the characters uf_dchar of a decimal text are ASCII digits",
+	"numerals":          "numeral vocabulary (a numeral - uf_isnum - is not empty, ends in a digit and consists of ASCII digits after an optional sign, nothing else; conversely): a text that is z zeros followed by the decimal text of n (uf_utext), or a sign and the decimal text of n (uf_stext), is a numeral of that value - strconv.ParseInt and (big.Int).SetString read what strconv.AppendInt/AppendUint and (big.Int).Append write; the characters uf_dchar of a decimal text are ASCII digits",
 	"fmt.State":         "fmt.State: Write appends to a ghost log of the state; Flag, Width and Precision are fixed attributes of the state; a callee handed the state may write to it (its log is then what the callee's contract says)",
 	"type-switch":       "type switch / v, ok := x.(T) for string, []byte, int64, float64: ok iff the dynamic-type tag of the interface value is T's; the tag and the wrapped string are recorded where the code wraps a value in an interface",
 	"strings":           "strings are immutable sequences of bytes: strlen/strbyte of a string code, exact for constants, related through indexing, slicing, concatenation, conversion from and to []byte and append",
@@ -73,7 +73,7 @@ var notCovered = map[string][]string{
 	"C04": {"that an error-free iteration of Ln's power series makes progress (error exit proved only); 'slow is not hang'; what the parser makes of the bytes of its text (strings are codes with a length and bytes: strlen/strbyte, exact for constants, related through indexing, slicing, concatenation, conversions and append; strings.HasPrefix is uninterpreted, strings.IndexByte only ranged); what a fmt.State, a database/sql source value or any other interface value does (interface method calls are unconstrained, type assertions with ok yield any value); the text produced; functions without contract are listed in DESIGN.md section 14"},
 	"C07": {"Sqrt/Cbrt/Exp/Ln/Pow inherit 'fits' from the contract of their final round call"},
 	"C13": {"decided: the text round trip for String/Text(G,g,E,e)/MarshalText through setString, Context.SetString, NewFromString, Decimal.SetString, UnmarshalText (formatter writes a text satisfying FinText/SpecText; the parser given such a text for a value inside the limits returns exactly that decimal) and Compose/Decompose over beval. Assumed: the numeral vocabulary (uf_utext/uf_stext texts are numerals of that value: strconv.ParseInt and big.Int.SetString read what strconv.AppendInt and big.Int.Append write), strings.ToLower on ASCII texts, strings.IndexByte/HasPrefix; that parse(format(d)) == d follows from the two contracts is read off their matching hypothesis and conclusion, not machine-checked as one lemma. Value and Scan(string, []byte) are covered through dynamic-type tags on interface values (assumed model of the type switch). Not decided: Text('f') for positive exponents (numeric value only), NaN payload digits (String does not print them), SetFloat64/Float64 and Scan(float64) (floats). Open finding: Text('E') of coefficients longer than 100001 digits"},
-	"C14": {"decided: the exact bytes of Append/Text/String/MarshalText for every decimal and verb (plain or scientific layout, the to-scientific-string choice with the documented zero exception, sign, special values, unknown verbs) over the decimal text of the coefficient and of the exponent (uf_dchar: math/big's and strconv's digits are assumed to be the decimal text). Not decided: the parser's acceptance set and 'no partial value' (only: a successful parse is well formed, the mantissa carries no second sign, the digit count handed to setExponent is right); what Format writes for an unknown verb (fmt.Fprintf); the fmt.State is modelled by a ghost log (Write appends; Flag, Width, Precision are fixed attributes of the state): that the real fmt.State behaves so is assumed; rejection of every text outside the grammar (proved: acceptance of every grammatical finite numeric string and of the special-value spellings in any case with optional sign and payload < 2^64; rejection of ASCII texts containing a character that is no digit, sign, point or letter, of ASCII texts that start like a number and contain a letter other than e/E, of nan/snan followed by anything but digits, of ASCII words that are no special-value spelling, of two points, two exponent letters, a sign that is neither first nor right after the e, the empty text, an empty exponent, a text without a digit that is no special value - lifted to SetString/NewFromString (no value and no condition returned), UnmarshalText and Scan; not proved: non-ASCII texts, a digitless mantissa in front of a digit-bearing exponent)"},
+	"C14": {"decided: the exact bytes of Append/Text/String/MarshalText for every decimal and verb (plain or scientific layout, the to-scientific-string choice with the documented zero exception, sign, special values, unknown verbs) over the decimal text of the coefficient and of the exponent (uf_dchar: math/big's and strconv's digits are assumed to be the decimal text). Not decided: the parser's acceptance set and 'no partial value' (only: a successful parse is well formed, the mantissa carries no second sign, the digit count handed to setExponent is right); what Format writes for an unknown verb (fmt.Fprintf); the fmt.State is modelled by a ghost log (Write appends; Flag, Width, Precision are fixed attributes of the state): that the real fmt.State behaves so is assumed; rejection of every text outside the grammar (proved: acceptance of every grammatical finite numeric string and of the special-value spellings in any case with optional sign and payload < 2^64; rejection of ASCII texts containing a character that is no digit, sign, point or letter, of ASCII texts that start like a number and contain a letter other than e/E, of nan/snan followed by anything but digits, of ASCII words that are no special-value spelling, of two points, two exponent letters, a sign that is neither first nor right after the e, the empty text, an empty exponent, a text without a digit that is no special value - lifted to SetString/NewFromString (no value and no condition returned), UnmarshalText and Scan; a digitless mantissa, a trailing sign; not proved: non-ASCII texts; completeness of the thirteen classes (that every ASCII text outside the grammar falls in one of them) is argued in DESIGN.md, not machine-checked)"},
 	"C16": {"text and byte results (String/Text/Append/Format/Marshal*/GobEncode/Bytes/FillBytes/Bits/Size) have no-panic and representation contracts only - the bytes produced are math/big's and are compared with math/big only by the bounded differential check; SetBits, SetBytes, Rand, the decoders, ModSqrt, ProbablyPrime are specified up to sign/range/representation, not value; And/Or/Xor/Not/Lsh/Sqrt/MulRange/Binomial/SetBit/GCD/ModInverse are proved against uninterpreted math/big operation functions (wrapper plumbing, aliasing, representation), not against a bit-level definition; the unsafe bridge (inner/updateInner) and math/big are assumed contracts, the bridge exercised by the bounded differential check (incl. negative zeros handed back by math/big)"},
 	"C17": {"Float64 is covered as plumbing only (the result is what strconv.ParseFloat returns for the scientific string of d, on every path: that it is the nearest float64 is strconv's); SetFloat64 goes through strconv.AppendFloat and the parser: that the stored decimal is the shortest one that round-trips is not decided"},
 	"C18": {"schedules are not explored: data-race freedom follows from the proved sequential frame conditions by the stated meta-theorem; races inside math/big or the runtime are out of reach"},
